@@ -1,4 +1,5 @@
 import RpycModel.Wire.Model
+import RpycModel.Wire.Duplex
 import Driver.Text
 /-
 drv_wire ops (not verified; exercised on every line).  Bytes are `x<hex>` (so the empty string is `x`).
@@ -16,6 +17,13 @@ Scripts are `-` (empty) or comma-separated items `<ev>` / `<ev>*<count>`:
                                                       (stream.read(n) calls, continuing after EOFError)
   wire swrites <max> <script> x<data>*             -> <r1> .. <rk> | <closed> <events-left> x<accepted bytes>
                                                       (stream.write calls, continuing after EOFError)
+  wire duplex <pipe> <max> <c> <fault> <rscript> <sscript> <pscript> x<wire> <op>* <Z-pkt>*
+                                                   -> <r1> .. <rk> | <closed> <r-left> <s-left> <p-left> <wire-left> x<accepted>
+      ONE stream used in both directions, calls in any order, continuing after exceptions.
+      <fault> n | 1 | 2: which close() of the descriptor(s) raises once.  poll events: r ready · i idle ·
+      n EINTR · s<errno> select error · f<errno> fileno raises · g fileno gives a number register refuses.
+      ops: S<pkt> Channel.send · R Channel.recv · P stream.poll · C stream.close · r<n> stream.read(n) ·
+      wx<hex> stream.write; bare Z-packets only feed the zlib table.
 <end> is done | starved | an exception class name; <c>, <retry>, <closed> are T / F.
 -/
 namespace Rpyc.Drv
@@ -124,7 +132,79 @@ def swritesGo (maxChunk : Nat) : List Bytes → WState → List String → List 
     let r := writeAll maxChunk d s
     swritesGo maxChunk ds r.2 (showWriteRes r.1 :: acc)
 
+def parsePollEv : List Char → Option PollEv
+  | ['r'] => some .ready
+  | ['i'] => some .idle
+  | ['n'] => some .eintr
+  | ['g'] => some .fdNeg
+  | 's' :: cs => (parseNatChars cs).map .selErr
+  | 'f' :: cs => (parseNatChars cs).map .fdErr
+  | _ => none
+
+def parseFault : String → Option CloseFault
+  | "n" => some .none
+  | "1" => some .first
+  | "2" => some .second
+  | _ => none
+
+/-- a duplex op; `none` inside = a table-only token -/
+def parseDOp (tok : String) : Option (Option DOp × Option (Bytes × Option Bytes)) :=
+  match tok.toList with
+  | ['R'] => some (some .recv, none)
+  | ['P'] => some (some .poll, none)
+  | ['C'] => some (some .close, none)
+  | 'S' :: cs => (parsePkt (String.ofList cs)).map (fun p => (some (.send p.1), some p))
+  | 'r' :: cs => (parseNatChars cs).map (fun n => (some (.read n), none))
+  | 'w' :: cs => (parseBytesTok (String.ofList cs)).map (fun b => (some (.write b), none))
+  | 'Z' :: _ => (parsePkt tok).map (fun p => (none, some p))
+  | _ => none
+
+def showX {α} (f : α → String) : XRes α → String
+  | .ok a => f a
+  | .eof => "EOFError"
+  | .starved => "starved"
+  | .oserr => "OSError"
+  | .valerr => "ValueError"
+  | .other e => e.name
+
+def duplexGo (z : ZlibFns) (retry c : Bool) (mx : Nat) : List DOp → DState → List String → List String × DState
+  | [], d, acc => (acc.reverse, d)
+  | .send p :: ops, d, acc =>
+    let r := dSend z c mx p d
+    duplexGo z retry c mx ops r.2 (showX (fun _ => "ok") r.1 :: acc)
+  | .recv :: ops, d, acc =>
+    let r := dRecv z retry mx d
+    duplexGo z retry c mx ops r.2 (showX (fun b => "ok:" ++ showBytes b) r.1 :: acc)
+  | .poll :: ops, d, acc =>
+    let r := dPoll d
+    duplexGo z retry c mx ops r.2 (showX showBool r.1 :: acc)
+  | .close :: ops, d, acc =>
+    let r := dCloseCall d
+    duplexGo z retry c mx ops r.2 (showX (fun _ => "ok") r.1 :: acc)
+  | .read n :: ops, d, acc =>
+    let r := dRead retry mx n d
+    duplexGo z retry c mx ops r.2 (showX (fun b => "ok:" ++ showBytes b) r.1 :: acc)
+  | .write b :: ops, d, acc =>
+    let r := dWrite mx b d
+    duplexGo z retry c mx ops r.2 (showX (fun _ => "ok") r.1 :: acc)
+
+def duplexOp : List String → String
+  | pipe :: mx :: c :: fault :: rs :: ss :: ps :: wire :: toks =>
+    match parseBoolTok pipe, parseNatChars mx.toList, parseBoolTok c, parseFault fault, parseScript parseRecvEv rs,
+        parseScript parseSendEv ss, parseScript parsePollEv ps, parseBytesTok wire, toks.mapM parseDOp with
+    | some pipe, some mx, some c, some fault, some rs, some ss, some ps, some w, some items =>
+      let ops := items.filterMap (·.1)
+      let pkts := items.filterMap (·.2)
+      let sends := items.filterMap (fun it => match it.1, it.2 with | some (.send _), some p => some p | _, _ => none)
+      if !tableCovers c sends then "bad-op" else
+      let d : DState := ⟨⟨w, rs, false⟩, ⟨[], ss, false⟩, pipe, fault, false, false, ps⟩
+      let r := duplexGo (tableZ (tableOf pkts)) (!pipe) c mx ops d []
+      " ".intercalate r.1 ++ s!" | {showBool r.2.r.closed} {r.2.r.script.length} {r.2.w.script.length} {r.2.pscript.length} {r.2.r.wire.length} {showBytes r.2.w.sent}"
+    | _, _, _, _, _, _, _, _, _ => "bad-op"
+  | _ => "bad-op"
+
 def wireOp : List String → String
+  | "duplex" :: args => duplexOp args
   | ["writes", c, mx, pkt] =>
     match parseBoolTok c, parseNatChars mx.toList, parsePkt pkt with
     | some c, some mx, some p =>
